@@ -15,7 +15,7 @@
     the interpreter (= the ISA by theorem C01); the refusal of local calls is checked there too. *)
 From Coq Require Import ZArith List String Bool.
 From RbpfV Require Import MachInt Ebpf Cases ClirSem Mem Stack Helpers InterpDefs Isa MemLemmas Interp ClAluProofs ClJmpProofs ClMemProofs ClMiscProofs WellFormed Verifier
-  ClCfgProofs InterpProofs ClStep ClRun.
+  ClCfgProofs InterpProofs ClStep ClRun JitStep JitRun IsaDef DefRun.
 From RbpfV.gen Require Import Opcodes ClAlu ClJmp ClMem ClMisc ClCfg.
 Import ListNotations.
 Open Scope Z_scope.
@@ -127,6 +127,25 @@ Example C04_run_example :
              cl_run 100 run_env run_mem = ODone 0x06020304 m).
 Proof. split; [vm_compute; reflexivity|]. split; [vm_compute; reflexivity|]. split; [reflexivity|]. eexists. split; vm_compute; reflexivity. Qed.
 
+(** C04 in the property's own terms (see C03_jit_agrees_with_interpreter for the tracked run [isa_steps_d]): whenever the
+    tracked ISA run returns -- termination, accesses in bounds, nothing undefined read (r2, which Cranelift sets to a length
+    at entry, included) -- the interpreter and the Cranelift code return that value and leave that memory *)
+Theorem C04_cranelift_agrees_with_interpreter : forall E m0 fuel r m',
+  bytes_ok (e_prog E) -> acc (e_prog E) -> env_ok E -> mem_ok m0 -> d7_free E ->
+  e_allowed E = [] -> (e_mem_len E <> 0 -> e_mem_base E <> 0) -> (e_mbuff_len E <> 0 -> e_mbuff_base E <> 0) ->
+  (forall k, In k (starts (e_prog E)) ->
+     (opc (insn_at (e_prog E) k) = op_call ->
+        src (insn_at (e_prog E) k) = 0 /\ e_helpers E (u32 (imm (insn_at (e_prog E) k))) <> None) /\
+     (opc (insn_at (e_prog E) k) mod 8 = 0 -> e_mem_len E <> 0)) ->
+  isa_steps_d fuel E D0 (isa_init_regs E, 0, 0, stacks0, m0) = ODone r m' ->
+  Interp.run fuel E m0 = ODone r m' /\ cl_run fuel E m0 = ODone r m'.
+Proof. exact cranelift_agrees_with_interpreter. Qed.
+
+Example C04_defined_run_example :
+  exists m, isa_steps_d 100 run_env D0 (isa_init_regs run_env, 0, 0, stacks0, run_mem) = ODone 0x06020304 m /\
+            Interp.run 100 run_env run_mem = ODone 0x06020304 m /\ cl_run 100 run_env run_mem = ODone 0x06020304 m.
+Proof. eexists. split; [vm_compute; reflexivity|]. split; vm_compute; reflexivity. Qed.
+
 (** non-vacuity: 50 opcodes; a division by a zero register gives 0, a 32-bit modulo by zero keeps all 64 bits *)
 Example C04_example :
   List.length cl_alu_ops = 50%nat /\ List.length cl_jmp_ops = 44%nat /\ List.length cl_mem_ops = 22%nat /\
@@ -150,3 +169,4 @@ Print Assumptions C04_step_refines.
 Print Assumptions C04_accepted_opcodes_translated.
 Print Assumptions C04_entry_registers.
 Print Assumptions C04_run_refines.
+Print Assumptions C04_cranelift_agrees_with_interpreter.
